@@ -567,7 +567,7 @@ func injectTempt(t *rapid.T, src string, cfg vmx.Cfg) string {
 
 func drawSource(t *rapid.T, s *rt.Section, cfg vmx.Cfg) (src, kind string) {
 	src, kind = drawSource0(t, s, cfg)
-	if rapid.Bool().Draw(t, "inject") {
+	if rapid.IntRange(0, 2).Draw(t, "inject") != 0 {
 		src, kind = injectTempt(t, src, cfg), kind+"+inject"
 	}
 	return src, kind
@@ -823,33 +823,60 @@ func checkHistory(c HistCase, s *rt.Section) (*rt.Failure, int, int) {
 	return nil, macroSteps, macroEffective
 }
 
-var macroFamilies = []string{"wod", "coc", "fate", "doublecross", "wod", "coc", "fate", "doublecross", "dc", "WoD", "all", "stmts"}
+var macroFamilies = []string{"wod", "coc", "fate", "doublecross", "dc", "WoD", "all", "stmts"}
 
-func drawMacro(t *rapid.T) string {
-	fam := rapid.SampledFrom(macroFamilies).Draw(t, "macroFam")
-	on := rapid.SampledFrom([]string{"true", "true", "true", "false"}).Draw(t, "macroOn")
-	switch rapid.IntRange(0, 9).Draw(t, "macroForm") {
-	case 0:
-		return "//#EnableDice " + fam + " " + on + "\n"
-	case 1:
-		return "//  #EnableDice  " + fam + "  " + on + " trailing words\n"
-	case 2:
-		return "// #EnableDice" + strings.ToUpper(fam[:1]) + fam[1:] + " " + on + "\n" // the GUIDE's spelling: a plain comment
-	}
-	return "// #EnableDice " + fam + " " + on + "\n"
+var famMacroName = map[string]string{"wod": "wod", "coc": "coc", "fate": "fate", "dc": "doublecross"}
+
+var famUses = map[string][]string{
+	"wod":  {"2a5", "a5", "x = 2a5k6", "[2a5, 1]", "func g() { 3a6 }; g()", "&c = 2a5; c", "`{2a5}`"},
+	"coc":  {"b2", "p", "b", "[b, p3]", "func g() { b2 }; g()", "&c = p; c", "`{% b %}`"},
+	"fate": {"f", "1+f", "[f]", "func g() { f }; g()", "&c = f; c", "`{f}`"},
+	"dc":   {"2c5", "2c5m7", "[2c5]", "func g() { 2c5 }; g()", "&c = 3c8; c", "`{2c5}`"},
 }
 
-var macroUses = []string{"2a5", "a5", "b2", "p", "f", "2c5", "2a5+b2+f+2c5", "[2a5, b, f, 2c5m7]", "x = 2a5k6", "func g() { b2 + f }; g()", "&c = 2c5; c", "`{2a5}{% f %}`", "g()", "c", "h(1)", "x", "1"}
+var macroUses = []string{"2a5+b2+f+2c5", "[2a5, b, f, 2c5m7]", "g()", "c", "h(1)", "x", "1", "g() + c"}
+
+// drawMacro draws a macro line and a text that uses what the macro names; three times out of four the
+// macro switches on a family that the configuration disables.
+func drawMacro(t *rapid.T, cfg vmx.Cfg) (macro, use string) {
+	var closed []string
+	for _, f := range []string{"wod", "coc", "fate", "dc"} {
+		if !famOn(cfg, f) {
+			closed = append(closed, f)
+		}
+	}
+	fam, on := "", "true"
+	if len(closed) > 0 && rapid.IntRange(0, 3).Draw(t, "macroClosed") != 0 {
+		f := rapid.SampledFrom(closed).Draw(t, "macroFam")
+		fam = famMacroName[f]
+		use = rapid.SampledFrom(famUses[f]).Draw(t, "macroUse")
+	} else {
+		fam = rapid.SampledFrom(macroFamilies).Draw(t, "macroFamAny")
+		on = rapid.SampledFrom([]string{"true", "false"}).Draw(t, "macroOn")
+		use = rapid.SampledFrom(macroUses).Draw(t, "macroUseAny")
+	}
+	switch rapid.IntRange(0, 11).Draw(t, "macroForm") {
+	case 0:
+		return "//#EnableDice " + fam + " " + on + "\n", use
+	case 1:
+		return "//  #EnableDice  " + fam + "  " + on + " trailing words\n", use
+	case 2:
+		return "// #EnableDice" + strings.ToUpper(fam[:1]) + fam[1:] + " " + on + "\n", use // the GUIDE's spelling: a plain comment
+	case 3:
+		return "// #EnableDice " + fam + " " + on + "\r\n", use
+	}
+	return "// #EnableDice " + fam + " " + on + "\n", use
+}
 
 // drawMacroSource places one or more macros somewhere in a text that then uses the families.
-func drawMacroSource(t *rapid.T) string {
-	use := rapid.SampledFrom(macroUses).Draw(t, "macroUse")
-	m := drawMacro(t)
-	switch rapid.IntRange(0, 11).Draw(t, "macroPlace") {
+func drawMacroSource(t *rapid.T, cfg vmx.Cfg) string {
+	m, use := drawMacro(t, cfg)
+	switch rapid.IntRange(0, 12).Draw(t, "macroPlace") {
 	case 0, 1, 2:
 		return m + use
 	case 3:
-		return m + drawMacro(t) + use
+		m2, use2 := drawMacro(t, cfg)
+		return m + m2 + use + "; " + use2
 	case 4:
 		return "x = 1\n" + m + use
 	case 5:
@@ -864,6 +891,8 @@ func drawMacroSource(t *rapid.T) string {
 		return "&c = " + use + "\n" + m + "c"
 	case 10:
 		return use + "\n" + m + use + "\n" + strings.Replace(m, "true", "false", 1) + use
+	case 11:
+		return m + use + " trailing text " + use
 	default:
 		return m + "func g() { " + use + " }\n&c = " + use + "\nx = [" + use + "]\ng() + c"
 	}
@@ -873,9 +902,10 @@ func drawStep(t *rapid.T, s *rt.Section, cfg vmx.Cfg) Step {
 	st := Step{Call: rapid.SampledFrom([]string{"Run", "Run", "Run", "Run", "Parse", "RunExpr"}).Draw(t, "call")}
 	switch rapid.IntRange(0, 9).Draw(t, "stepKind") {
 	case 0, 1, 2, 3:
-		st.Src = drawMacroSource(t)
+		st.Src = drawMacroSource(t, cfg)
 	case 4, 5:
-		st.Src = rapid.SampledFrom(macroUses).Draw(t, "plainUse")
+		f := rapid.SampledFrom([]string{"wod", "coc", "fate", "dc"}).Draw(t, "plainFam")
+		st.Src = rapid.SampledFrom(append(append([]string{}, famUses[f]...), macroUses...)).Draw(t, "plainUse")
 	case 6:
 		st.Src, _ = drawSpellCase(t, cfg)
 	case 7:
@@ -1218,7 +1248,7 @@ func TestProp(t *testing.T) {
 			runEnum(s, run, alpha, 4, []string{"%s"})
 			return
 		}
-		alpha := []string{"2", "5", "a", "b", "c", "f", "p", "m", "k", "(", ")", " ", "d"}
+		alpha := []string{"2", "a", "b", "c", "f", "p", "m", "k", "(", ")", " ", "d"}
 		wrappers := []string{"^st x=%s", "`{%s}`", "func g() { %s }"}
 		s.Bounds = fmt.Sprintf("alphabet %q: all strings of length 1..5 bare, and of length 1..4 in the wrappers %q; 16 family settings each", alpha, wrappers)
 		if runEnum(s, run, alpha, 5, []string{"%s"}) {
